@@ -55,6 +55,16 @@ pub fn check(t: &Trace<'_>, out: &mut CaseOut) -> bool {
                             if matches!(op.unwrap().outcome, Outcome::Err(ErrRepr::InflightExhausted)) && !hostile {
                                 out.violations.push(viol("C04", "C04/ack-dropped/control-queue-full", format!("conn {}: inbound PUBLISH (qos {}, id {:?}) could not be acknowledged: {} returned InflightExhausted", conn, qos, pid, op.unwrap().kind)));
                             }
+                            // an acknowledgement is at most 5 bytes long: "does not fit the broker's
+                            // Maximum Packet Size" is no excuse when the limit is 5 or more (or absent)
+                            // and every packet still awaiting (re)transmission is within it
+                            if matches!(op.unwrap().outcome, Outcome::Err(ErrRepr::PacketTooLarge)) {
+                                let mps = t.conns.iter().find(|c| c.idx == *conn).and_then(|c| c.mps);
+                                let fits = op.unwrap().snap_before.as_ref().is_some_and(|s| s.tx.retained.iter().all(|e| mps.is_none_or(|m| e.len <= m as usize)));
+                                if mps.is_none_or(|m| m >= 5) && fits {
+                                    out.violations.push(viol("C04", "C04/ack-refused-although-it-fits", format!("conn {}: inbound PUBLISH (qos {}, id {:?}) was neither delivered nor acknowledged: {} returned PacketTooLarge although the broker's Maximum Packet Size is {:?}", conn, qos, pid, op.unwrap().kind, mps)));
+                                }
+                            }
                             broken = true;
                             continue;
                         }
